@@ -184,6 +184,8 @@ pub struct Program {
     pub ops: Vec<Op>,
     /// Number of threads (C19 profile); 0/1 = single-threaded program.
     pub threads: Vec<ThreadPlan>,
+    /// C19: the baton order (thread ids); when it runs out the remaining steps are taken round-robin.
+    pub schedule: Vec<u8>,
     pub expect: Option<(String, String)>, // (property, oracle)
 }
 
@@ -206,6 +208,7 @@ impl Program {
             faults: Vec::new(),
             ops: Vec::new(),
             threads: Vec::new(),
+            schedule: Vec::new(),
             expect: None,
         }
     }
@@ -274,6 +277,13 @@ impl Program {
                 s.push('\n');
             }
         }
+        if !self.schedule.is_empty() {
+            s.push_str("schedule");
+            for t in &self.schedule {
+                let _ = write!(s, " {}", t);
+            }
+            s.push('\n');
+        }
         if let Some((p, o)) = &self.expect {
             let _ = writeln!(s, "expect property={} oracle={}", p, o);
         }
@@ -339,6 +349,11 @@ impl Program {
                     match p.threads.last_mut() {
                         Some(t) => t.ops.push(op),
                         None => return Err(err("`top` before any `thread`")),
+                    }
+                }
+                "schedule" => {
+                    for t in rest.split_whitespace() {
+                        p.schedule.push(t.parse().map_err(|_| err("bad thread id in schedule"))?);
                     }
                 }
                 "expect" => {
